@@ -155,8 +155,8 @@ func (e *Enc) bytesExpand(h *Heap, s string, max int) string {
 		}
 		byLen = append(byLen, t)
 	}
-	term = byLen[max]
-	for n := max - 1; n >= 0; n-- {
+	term = app("select", e.bytesHeap(h), s) // longer than the bound: not bridged, the abstract content
+	for n := max; n >= 0; n-- {
 		term = fmt.Sprintf("(ite (= (slen %s) %d) %s %s)", s, n, byLen[n], term)
 	}
 	return term
